@@ -32,10 +32,10 @@ const (
 	kChoiceFirst  // ( R / 'a' )
 	kChoiceSecond // ( 'a' / R )
 	kAct
-	kRecover    // R //{l} 'a'
-	kSeqOptRef  // ( 'a'? R )
-	kPlusNRef   // ( N R )+      N <- 'n'?  is a fixed nullable rule
-	kStarLitRef // ( 'a' R )*
+	kRecover        // R //{l} 'a'
+	kSeqOptRef      // ( 'a'? R )
+	kPlusNRef       // ( N R )+      N <- 'n'?  is a fixed nullable rule
+	kStarLitRef     // ( 'a' R )*
 	kChoicePredRef  // ( !'x' / R )        a nullable alternative that can fail, then the reference
 	kChoicePredNRef // ( !'x' / N R 'y' )  the same with a nullable rule in front of the reference
 	kRecThrowRef    // ( T 'z' ) //{l} R   T <- 'b' / %{l}: R runs where the throw happens, possibly at the start of the rule
@@ -201,10 +201,10 @@ func (l *lazySlot) force() ast.Expression {
 	return l.real
 }
 
-func (l *lazySlot) Pos() ast.Pos                                  { return ast.Pos{} }
-func (l *lazySlot) NullableVisit(r map[string]*ast.Rule) bool     { return l.force().NullableVisit(r) }
-func (l *lazySlot) IsNullable() bool                              { return l.force().IsNullable() }
-func (l *lazySlot) InitialNames() map[string]struct{}             { return l.force().InitialNames() }
+func (l *lazySlot) Pos() ast.Pos                              { return ast.Pos{} }
+func (l *lazySlot) NullableVisit(r map[string]*ast.Rule) bool { return l.force().NullableVisit(r) }
+func (l *lazySlot) IsNullable() bool                          { return l.force().IsNullable() }
+func (l *lazySlot) InitialNames() map[string]struct{}         { return l.force().InitialNames() }
 
 // ---- reference: syntactic nullable / first-call analysis (least fixpoint)
 
@@ -316,12 +316,9 @@ func c07Describe(rules []*c07Rule) string {
 
 const c07Slots = 2
 
-// c07Build: what the user sees. The completed grammar (every slot is forced by
-// now) is handed to the real BuildParser with default options, i.e. without
-// -support-left-recursion: it must be rejected when it has a first-call cycle
-// and accepted when it has none.
-func c07Build(rules []*c07Rule, want, approx bool) {
-	symSkip("(*github.com/mna/pigeon/builder.builder).writeStaticCode")
+// c07Real: the completed grammar out of real ast nodes only (a slot nobody asked
+// about stands as 'a', which is what its zero descriptor denotes).
+func c07Real(rules []*c07Rule) *ast.Grammar {
 	g := ast.NewGrammar(ast.Pos{})
 	for i, cr := range rules {
 		seq := ast.NewSeqExpr(ast.Pos{})
@@ -344,13 +341,38 @@ func c07Build(rules []*c07Rule, want, approx bool) {
 	tc.Alternatives = []ast.Expression{ast.NewLitMatcher(ast.Pos{}, "b"), th}
 	tr.Expr = tc
 	g.Rules = append(g.Rules, tr)
+	return g
+}
+
+// c07Build: what the user sees. The completed grammar is handed to the real
+// BuildParser with default options, i.e. without -support-left-recursion: it
+// must be rejected when it has a first-call cycle and accepted when it has none.
+func c07Build(rules []*c07Rule, want, approx bool) {
+	symSkip("(*github.com/mna/pigeon/builder.builder).writeStaticCode")
 	var buf bytes.Buffer
-	berr := BuildParser(&buf, g)
+	berr := BuildParser(&buf, c07Real(rules))
 	if want {
 		symAssert(berr != nil, "C07: BuildParser without -support-left-recursion accepted a grammar with a first-call cycle")
 	} else if !approx {
 		symAssert(berr == nil, "C07: BuildParser rejected a grammar without a first-call cycle")
 	}
+}
+
+// c07Explore runs the analysis on the grammar with lazy slots. Its only purpose
+// is to let the analysis decide which slots matter (one path then stands for
+// every completion of the slots nobody asked about - as long as the analysis
+// talks to expressions through the ast.Expression interface). Nothing is
+// asserted about this run: an analysis that inspects node types (ast.Walk,
+// type switches) does not know the harness type and may panic or skip it; the
+// assertions below are all about the grammar rebuilt from real nodes.
+func c07Explore(g *ast.Grammar) (interfaceOnly bool) {
+	defer func() {
+		if p := recover(); p != nil {
+			interfaceOnly = false
+		}
+	}()
+	_, _ = PrepareGrammar(g)
+	return true
 }
 
 // Harness_C07a: n fixes the first slot of rule A (splits the family into
@@ -390,10 +412,13 @@ func Harness_C07a(n int) {
 	tr.Expr = tc
 	g.Rules = append(g.Rules, tr)
 
-	have, err := PrepareGrammar(g)
+	if !c07Explore(g) {
+		symNote("lazy slots not applicable: the analysis inspects node types")
+	}
 	want, ill, approx := reflr(rules)
 	symAssume(!ill)
 	symNote(c07Describe(rules))
+	have, err := PrepareGrammar(c07Real(rules))
 	if err != nil {
 		// no leader candidate: the tool rejects the grammar also with the flag; it
 		// must then really be left-recursive
